@@ -515,10 +515,14 @@ theorem asdfFaithful_observed : AsdfFaithful AsdfLib.observed := by
   refine ⟨?_, ?_, ?_⟩
   · intro g
     obtain ⟨s, c, w⟩ := g
-    simp [AsdfLib.observed, asdfLoad, Grid.toDict, Tree.get, lookup]
+    have : AsdfLib.observed.load (Grid.toDict ⟨s, c, w⟩) = normGridTree (Grid.toDict ⟨s, c, w⟩) := by
+      simp [AsdfLib.observed, asdfLoad, Grid.toDict, Tree.get, lookup]
+    rw [this]
   · intro f
     obtain ⟨v, g⟩ := f
-    simp [AsdfLib.observed, asdfLoad, Field.toDict, Tree.get, lookup]
+    have : AsdfLib.observed.load (Field.toDict ⟨v, g⟩) = normObjTree (Field.toDict ⟨v, g⟩) := by
+      simp [AsdfLib.observed, asdfLoad, Field.toDict, Tree.get, lookup]
+    rw [this]
   · intro b t ht
     obtain ⟨tm, og⟩ := b
     cases og with
@@ -527,7 +531,11 @@ theorem asdfFaithful_observed : AsdfFaithful AsdfLib.observed := by
       simp only [ModeBasis.toDict] at ht
       injection ht with ht
       subst ht
-      simp [AsdfLib.observed, asdfLoad, Tree.get, lookup]
+      have : ∀ x y z, AsdfLib.observed.load (.dict [(.grid, x), (.tm, y), (.isSparse, z)])
+          = normObjTree (.dict [(.grid, x), (.tm, y), (.isSparse, z)]) := by
+        intro x y z
+        simp [AsdfLib.observed, asdfLoad, Tree.get, lookup]
+      rw [this]
 
 /-- **Grids through asdf files**: reading back what was written yields the grid (system,
 coordinates, weights; NumPy-scalar weights as the Python number of the same value). -/
